@@ -435,6 +435,7 @@ class ResourcePeriodicallyInterrupted(ResourceConstraint):
             for task, (start_task_i, end_task_i) in worker._busy_intervals.items():
                 resource_assigned = True
                 overlaps = []
+                task_conds = []
 
                 # check if the task allows variable duration
                 is_interruptible = isinstance(task, VariableDurationTask)
@@ -496,7 +497,7 @@ class ResourcePeriodicallyInterrupted(ResourceConstraint):
                     if is_interruptible:
                         # just make sure that the task does not start or end within one of the time intervals...
                         # TODO: account for zero-duration?
-                        conds.extend(
+                        task_conds.extend(
                             [
                                 z3.Xor(
                                     folded_start_task_i <= interval_lower_bound,
@@ -510,7 +511,7 @@ class ResourcePeriodicallyInterrupted(ResourceConstraint):
                         )
                     else:
                         # ...otherwise make sure the task does not overlap with any of time intervals
-                        conds.append(
+                        task_conds.append(
                             z3.Or(
                                 folded_start_task_i + duration <= interval_lower_bound,
                                 z3.And(
@@ -524,25 +525,25 @@ class ResourcePeriodicallyInterrupted(ResourceConstraint):
                 if is_interruptible:
                     # add assertions for task duration based on the total count of overlapped periods
                     total_overlap = z3.Sum(*overlaps)
-                    conds.append(task._duration >= task.min_duration + total_overlap)
+                    task_conds.append(task._duration >= task.min_duration + total_overlap)
                     if task.max_duration is not None:
-                        conds.append(
+                        task_conds.append(
                             task._duration <= task.max_duration + total_overlap
                         )
 
-            # TODO: add AND only of mask is set?
-            core = z3.And(*conds)
+                # a task that lies outside the active range [start, end) is not concerned
+                core = z3.And(*task_conds)
+                mask = [core]
+                if self.start > 0:
+                    mask.append(end_task_i <= self.start)
+                if self.end is not None:
+                    mask.append(start_task_i >= self.end)
+                if len(mask) > 1:
+                    conds.append(z3.Or(*mask))
+                else:
+                    conds.append(core)
 
-            mask = [core]
-            if self.start > 0:
-                mask.append(end_task_i <= self.start)
-            if self.end is not None:
-                mask.append(start_task_i >= self.end)
-
-            if len(mask) > 1:
-                self.set_z3_assertions(z3.Or(*mask))
-            else:
-                self.set_z3_assertions(*mask)
+            self.set_z3_assertions(z3.And(*conds))
 
         if not resource_assigned:
             raise AssertionError(
